@@ -25,6 +25,7 @@ import (
 //	stale-positions       repeated in-place deletion at positions computed before the deletions
 //	range-copy-update     a field of a by-value range variable over a slice of structs is assigned,
 //	                      the element is never written back and the copy is not used afterwards
+//	relative-end          an append-style encoder (pos := len(out)) returns out[:n] with n not derived from pos
 //	schema-alias          a.Schema = b.Schema between two records (SetSchema copies)
 //	stale-element-pointer p := &s[i]; s = append(s[:i], s[i+1:]...); p is used afterwards
 //	rebase-mismatch       an offset found by Index*(buf[a:], …) is rebased with a base other than a
@@ -287,6 +288,121 @@ func idiomsOf(c *an.Ctx, d *an.FuncSrc) []idiomHit {
 		}
 		return true
 	})
+	// ---- append-style encoder: the returned end of the buffer is not based on where the block began
+	{
+		// out: a []byte parameter; pos := len(out) recorded at entry
+		var outs []types.Object
+		if d.Decl.Type.Params != nil {
+			for _, fld := range d.Decl.Type.Params.List {
+				for _, nm := range fld.Names {
+					if o := info.Defs[nm]; o != nil {
+						if sl, ok := o.Type().Underlying().(*types.Slice); ok {
+							if b, ok := sl.Elem().Underlying().(*types.Basic); ok && b.Kind() == types.Uint8 {
+								outs = append(outs, o)
+							}
+						}
+					}
+				}
+			}
+		}
+		for _, out := range outs {
+			// locals and what they are defined from (all assignments)
+			defs := map[types.Object][]ast.Expr{}
+			var posVars []types.Object
+			ast.Inspect(body, func(m ast.Node) bool {
+				as, ok := m.(*ast.AssignStmt)
+				if !ok || len(as.Lhs) != len(as.Rhs) {
+					return true
+				}
+				for i, l := range as.Lhs {
+					id, ok := l.(*ast.Ident)
+					if !ok {
+						continue
+					}
+					o := info.Defs[id]
+					if o == nil {
+						o = info.Uses[id]
+					}
+					if o == nil {
+						continue
+					}
+					defs[o] = append(defs[o], as.Rhs[i])
+					if ce, ok := ast.Unparen(as.Rhs[i]).(*ast.CallExpr); ok && len(ce.Args) == 1 {
+						if fid, ok := ce.Fun.(*ast.Ident); ok && fid.Name == "len" {
+							if aid, ok := ast.Unparen(ce.Args[0]).(*ast.Ident); ok && info.Uses[aid] == out {
+								posVars = append(posVars, o)
+							}
+						}
+					}
+				}
+				return true
+			})
+			if len(posVars) == 0 {
+				continue
+			}
+			// "based on the entry length": positions only — sums/differences of pos variables,
+			// len(out), and locals defined from such; the length of something else is not a position
+			var based func(e ast.Expr, depth int) bool
+			based = func(e ast.Expr, depth int) bool {
+				switch x := ast.Unparen(e).(type) {
+				case *ast.Ident:
+					o := info.Uses[x]
+					for _, pv := range posVars {
+						if o == pv {
+							return true
+						}
+					}
+					if depth < 4 {
+						for _, rhs := range defs[o] {
+							if based(rhs, depth+1) {
+								return true
+							}
+						}
+					}
+				case *ast.BinaryExpr:
+					return based(x.X, depth) || based(x.Y, depth)
+				case *ast.CallExpr:
+					if len(x.Args) == 1 {
+						if fid, ok := x.Fun.(*ast.Ident); ok && fid.Name == "len" {
+							if aid, ok := ast.Unparen(x.Args[0]).(*ast.Ident); ok && info.Uses[aid] == out {
+								return true
+							}
+							return false
+						}
+						if tv, ok := info.Types[x.Fun]; ok && tv.IsType() {
+							return based(x.Args[0], depth)
+						}
+					}
+				}
+				return false
+			}
+			ast.Inspect(body, func(m ast.Node) bool {
+				if _, isLit := m.(*ast.FuncLit); isLit {
+					return false
+				}
+				rs, ok := m.(*ast.ReturnStmt)
+				if !ok {
+					return true
+				}
+				for _, e := range rs.Results {
+					se, ok := ast.Unparen(e).(*ast.SliceExpr)
+					if !ok || se.High == nil || se.Low != nil {
+						continue
+					}
+					if xid, ok := ast.Unparen(se.X).(*ast.Ident); !ok || info.Uses[xid] != out {
+						continue
+					}
+					if tv, ok := info.Types[se.High]; ok && tv.Value != nil {
+						continue // constant bound
+					}
+					if !based(se.High, 0) {
+						add("relative-end", rs, d.Name()+" appends a block to "+out.Name()+" (its length at entry is recorded) and returns "+types.ExprString(e)+", whose end is not derived from that entry length: the slice is too short by what the buffer already held")
+					}
+				}
+				return true
+			})
+		}
+	}
 	// ---- a record borrows another record's schema slice
 	ast.Inspect(body, func(m ast.Node) bool {
 		as, ok := m.(*ast.AssignStmt)
@@ -506,7 +622,7 @@ func idiomsOf(c *an.Ctx, d *an.FuncSrc) []idiomHit {
 // idiomSweep arms the generic idioms for the packages of one property.  accepted lists, by
 // "function: idiom", the hits of the pinned tree that were read and found harmless (one reason each).
 func idiomSweep(c *an.Ctx, id string, pkgs []string, floor int, accepted map[string]string) {
-	r := c.Rule(id, "K-IDIOM(sweep)", "no function in the source files of this property's anchors ("+strings.Join(pkgs, ", ")+") contains one of the generic defect idioms (aliased compaction, pooled return, unassigned shadowed error, lost shadow store, removal inside an index loop, stale positions, update of a range copy, record schema shared without a copy, element pointer used after an in-place removal, sub-slice offset rebased with another base, merge stepping the larger side)")
+	r := c.Rule(id, "K-IDIOM(sweep)", "no function in the source files of this property's anchors ("+strings.Join(pkgs, ", ")+") contains one of the generic defect idioms (aliased compaction, pooled return, unassigned shadowed error, lost shadow store, removal inside an index loop, stale positions, update of a range copy, appended block returned with a relative end, record schema shared without a copy, element pointer used after an in-place removal, sub-slice offset rebased with another base, merge stepping the larger side)")
 	n := 0
 	used := map[string]bool{}
 	// scope: the functions declared in the property's anchor files and in the files in which its
